@@ -21,7 +21,9 @@ import (
 	"time"
 
 	"github.com/glowlabs-org/gca-backend/glow"
+	"github.com/glowlabs-org/gca-backend/server"
 	"verifharness/core"
+	"verifharness/srv"
 )
 
 func init() {
@@ -257,6 +259,70 @@ func schedMix(res *core.Result, r *core.RNG) error {
 	return nil
 }
 
+// (b3) new authorized servers announced while devices sync over TCP (the two handlers use the
+// server lock and the server-list lock): afterwards both endpoints must still answer
+func schedListVsSync(res *core.Result, r *core.RNG) error {
+	s, err := started(res, r, "sched-list", 900, true, 1000, 1000)
+	if err != nil {
+		return err
+	}
+	w := s.w
+	var stop int32
+	var wg sync.WaitGroup
+	for k := 0; k < 4; k++ {
+		wg.Add(1)
+		go func(k int) {
+			defer wg.Done()
+			for atomic.LoadInt32(&stop) == 0 {
+				w.Sync(s.a.Devices[k%len(s.a.Devices)].ID, false)
+			}
+		}(k)
+	}
+	posted := 0
+	deadline := time.Now().Add(400 * time.Millisecond)
+	stuck := false
+	for posted < 120 && time.Now().Before(deadline) && !stuck {
+		as := server.AuthorizedServer{PublicKey: srv.DetKey(r).Pub, Location: "127.0.0.1", HttpPort: 9, TcpPort: uint16(r.Range(1, 65535)), UdpPort: uint16(r.Range(1, 65535))}
+		as.GCAAuthorization = glow.Sign(as.SigningBytes(), s.a.GCA.Priv)
+		j, _ := json.Marshal(as)
+		done := make(chan int, 1)
+		go func() { done <- w.Raw("POST", "/api/v1/authorized-servers", j).Status }()
+		select {
+		case st := <-done:
+			if st == 200 {
+				posted++
+			}
+		case <-time.After(3 * time.Second):
+			stuck = true
+		}
+	}
+	atomic.StoreInt32(&stop, 1)
+	res.Count("sched.list-vs-sync")
+	probe := make(chan bool, 1)
+	go func() {
+		ok := w.Raw("GET", "/api/v1/equipment", nil).Status == 200
+		_, _, _, _, _, e := w.Sync(s.a.Devices[0].ID, false)
+		probe <- ok && e == nil
+	}()
+	alive := false
+	select {
+	case alive = <-probe:
+	case <-time.After(4 * time.Second):
+	}
+	if stuck || !alive {
+		s.fail(fmt.Sprintf("the server stops answering (HTTP and TCP sync) when new authorized servers are announced while devices sync: stuck after %d announcements with 4 devices syncing in a loop", posted), "c13-deadlock")
+		return nil // the server cannot be closed
+	}
+	wg.Wait()
+	if posted == 0 {
+		s.fail("no announcement of a new authorized server was accepted", "c13-list-setup")
+	}
+	if p := w.Close(); p != "" {
+		s.fail("server consistency check (CheckInvariants) panics after the concurrent workload: "+p, "checkinvariants-panic")
+	}
+	return nil
+}
+
 func schedWorker(res *core.Result, r *core.RNG, tier, out string) error {
 	var items []string
 	n := 1
@@ -278,9 +344,12 @@ func schedWorker(res *core.Result, r *core.RNG, tier, out string) error {
 		if err := schedMix(res, r.Fork()); err != nil {
 			return err
 		}
+		if err := schedListVsSync(res, r.Fork()); err != nil {
+			return err
+		}
 	}
-	res.Required = []string{"sched.inject:ban-captured-device", "sched.inject:rotate", "sched.ban-in-flight", "sched.mix"}
-	res.Rule = "injection of every menu operation between the impact job's two critical sections (compared with the model); devices banned while their datagrams are in flight on the real socket; many-goroutine mix of UDP reports, statistics (with insert_false_negatives), equipment, archive, sync, recent-reports requests and impact rounds, judged against the order-independent report rule; -race build in the thorough tier"
+	res.Required = []string{"sched.inject:ban-captured-device", "sched.inject:rotate", "sched.ban-in-flight", "sched.mix", "sched.list-vs-sync"}
+	res.Rule = "injection of every menu operation between the impact job's two critical sections (compared with the model); devices banned while their datagrams are in flight on the real socket; many-goroutine mix of UDP reports, statistics (with insert_false_negatives), equipment, archive, sync, recent-reports requests and impact rounds, judged against the order-independent report rule; announcements of new authorized servers against devices syncing in a loop with a liveness probe; (mix) judged against the order-independent report rule; -race build in the thorough tier"
 	return writeServerCases(res, out, "sched", items)
 }
 
